@@ -46,7 +46,7 @@ fn peer_step(kind: &str, op: &str, fields: &[&str]) -> Option<PeerStep> {
     for e in &evs {
         match e {
             ReadEv::Data(d) => reply.extend(d),
-            ReadEv::Eof => close = true,
+            ReadEv::Eof | ReadEv::EofSticky => close = true,
             _ => return None,
         }
     }
